@@ -364,3 +364,41 @@ def encoder_bytes(mod):
         C.run(f, only=lambda l: l == 'wok')
         out[f] = sorted({x[1:] for x in hooks.log if x[0] == 'packbytes'}, key=repr)
     return out
+
+
+# ---- what the decoder's internal "next state" codes mean, read from the code itself ---------------------------------------
+def next_state_kinds(mod, dec):
+    """-> ({next_state code: kind}, error code).  The codes _process_one returns are an internal encoding; their meaning is taken
+    from what the token loop does with them: the public binson_type it records as the current type for such a token."""
+    from props import stepm
+    from engine.contracts import Contracts, LibHooks, Layout
+    from engine.common import need
+    lay = Layout(mod)
+    enums = Contracts(mod, LibHooks())._enums()
+    tname = {v: n[len('BINSON_TYPE_'):].lower() for n, v in enums.items() if n.startswith('BINSON_TYPE_')}
+    flags = stepm.level_flag_constants(mod, lay)
+    modes = stepm.mode_constants(mod)
+    kinds = {}
+    errs = set()
+    for b, rows in sorted(dec.items()):
+        for r in rows:
+            if r[3] != 0:
+                errs.add(r[0])
+        succ = {r[0] for r in rows if r[3] == 0}
+        for v in succ:
+            if v in kinds:
+                continue
+            types = set()
+            for f in flags:
+                res, _ = stepm.eval_step(mod, {'tok': (b, b), 'flags': f, 'dz': False, 'mode': modes[0], 'lookup': False})
+                for o in res:
+                    if o['err'] != 0:
+                        continue
+                    for ((lvl, field), desc) in o['eff']:
+                        if field == 'current_type' and desc[0] == 'c' and not any(str(f2).startswith('current_name') for ((l2, f2), d2) in o['eff']):
+                            types.add(desc[1])
+            need(len(types) == 1, 'tables: the token loop does not record one type for tokens starting with byte 0x%02x (%r)' % (b, sorted(types)))
+            kinds[v] = tname.get(types.pop(), '?')
+    need(len(errs) == 1, 'tables: _process_one does not use one error code (%r)' % sorted(errs))
+    need(len(set(kinds.values())) == len(kinds) and '?' not in kinds.values(), 'tables: next-state codes do not map one-to-one to value types (%r)' % kinds)
+    return kinds, errs.pop()
